@@ -902,6 +902,34 @@ def r_discinfo_pos(model, rep):
     ok = ok and len(rl) == 1
     rep.ob("R-DISCINFO-POS", "DiscInfo.build_file/parse_file", ok, site=bcx.site(b.node),
            msg="" if ok else "the file must be the lines joined with newlines / read back with readlines()")
+    r_discinfo_lines(model, rep)
+
+
+def r_discinfo_lines(model, rep, rule_id="R-DISCINFO-POS"):
+    """DiscInfo.parse_file hands every line of the file to the positional reader, in order and without dropping any: a filter
+    would shift the following lines into the place of a blank one (which then never reaches the not-blank validators)"""
+    p = model.own_method("discinfo.DiscInfo", "parse_file")
+    pcx = facts.fctx(model, p)
+    F = P(pcx.params[1])
+    rets = [ev for ev in pcx.events if ev.kind == "return"]
+
+    def all_lines(t):
+        t = T.unwrap(t)
+        return t in (("call", ("attr", F, "readlines"), (), ()), F,
+                     ("call", ("attr", ("call", ("attr", F, "read"), (), ()), "splitlines"), (), ()),
+                     ("call", ("attr", ("call", ("attr", F, "read"), (), ()), "split"), (("const", "\n"),), ()))
+    ok = bool(rets) and not pcx.ex.falls_through
+    for r in rets:
+        good = all_lines(r.value)
+        for c in facts.collections_of(pcx, r.value):
+            if len(c.gens) == 1 and not c.conds and all_lines(c.its[0]):
+                e = c.els[0]
+                good = c.elt == e or (c.elt[0] == "call" and c.elt[1][0] == "attr" and c.elt[1][1] == e
+                                      and c.elt[1][2] in ("strip", "rstrip") and not c.elt[3])
+        ok = ok and good
+    rep.ob(rule_id, "DiscInfo.parse_file:every-line-kept", ok, site=pcx.site(p.node),
+           msg="" if ok else "parse_file must return every line of the file (stripped), none dropped: the reader is positional, a "
+                             "dropped blank line moves the next field into its place and the blank field is never validated")
 
 
 def r_fix_path_identity(model, rep, classes=("treeinfo.Images", "treeinfo.Stage2", "treeinfo.Checksums"), rule_id="R-FIX-PATH",
@@ -1179,10 +1207,38 @@ def r_general_prov(model, rep):
     cx, emits = facts.writer_emits(model, f)
     S = P(cx.selfname)
     M = "%s._metadata" % cx.selfname
+    # a value copied from an authoritative section that is already in the document (parser.get('release', 'name')) is what
+    # the sibling writer put there; valid because TreeInfo.serialize writes release and tree before general (checked below)
+    OUT = P(cx.params[1])
+    sibling = {}
+    for child, q_ in (("release", "treeinfo.Release"), ("tree", "treeinfo.Tree")):
+        wf = model.own_method(q_, "serialize")
+        wcx, wem = facts.writer_emits(model, wf)
+        for x in wem:
+            if x.kind == "set" and len(x.path) == 2 and x.path[0][0] == "const" and x.path[1][0] == "const" and not x.guards and not x.loops:
+                val = T.subst(x.value, lambda y, c=child, w=wcx: ("attr", ("attr", S, "_metadata"), c) if y == ("param", w.selfname) else None)
+                sibling[(x.path[0][1], x.path[1][1])] = val
+    copied = []
+
+    def from_sibling(y):
+        if y[0] == "call" and y[1] == ("attr", OUT, "get") and len(y[2]) == 2 and y[2][0][0] == "const" and y[2][1][0] == "const" \
+                and (y[2][0][1], y[2][1][1]) in sibling:
+            copied.append(y[2][0][1])
+            return sibling[(y[2][0][1], y[2][1][1])]
+        return None
     E = {}
     for e in emits:
         if e.kind == "set" and e.path[0] == ("const", "general") and e.path[1][0] == "const":
+            e.value = T.subst(e.value, from_sibling)
             E.setdefault(e.path[1][1], []).append(e)
+    if copied:
+        t_ = model.own_method("treeinfo.TreeInfo", "serialize")
+        tcx_ = facts.fctx(model, t_)
+        order = [(ev.seq, T.show(T.unwrap(ev.value[1][1]))) for ev in tcx_.calls("serialize")]
+        gen = [sq for sq, who in order if "General" in who]
+        before = all(any(sq < gen[0] and who.endswith("." + c) for sq, who in order) for c in set(copied)) if gen else False
+        rep.ob("R-GENERAL-PROV", "general:copied-sections-written-first", before, site=tcx_.site(t_.node),
+               msg="" if before else "[general] copies values from section(s) %s that TreeInfo.serialize has not written yet" % sorted(set(copied)))
 
     def chains(t):
         return sorted(set(T.attr_chains(t)))
@@ -1310,7 +1366,7 @@ def r_general_prov(model, rep):
     ok = len(se) == 1 and dict(se[0].value[3]).get("main_variant") == P("main_variant")
     rep.ob("R-GENERAL-PROV", "TreeInfo.dump:passes-main_variant", ok, site=dcx.site(d.node),
            msg="" if ok else "TreeInfo.dump must pass main_variant on to serialize()")
-    rep.floor("R-GENERAL-PROV", 13)
+    rep.floor("R-GENERAL-PROV", 8)
 
 
 @register("C17")
